@@ -20,6 +20,13 @@ def run(chk):
 
     chk.kernel("heavyhitters._add_ngram")
     _glue.glue_part(chk, ["HeavyHitters"], {"add", "getitem", "update", "add_ngram", "update_ngram"}, lambda: _oracle.hh_history(chk, 150))
+    from . import C13, C15
+
+    C13.query_part(chk, chk.default_found)  # what query() returns is hh[key] of the stored identities, fresh
+    C15.merge_glue(chk, ["HeavyHitters"])  # merge() reaches the merge kernel on every accepting path
+    from . import C10
+
+    C10.part(chk, ["HeavyHitters"])  # the save/load step of a history
     hn = 25 if chk.tier == "quick" else 800
     hb = _oracle.hh_history(chk, hn)
     if hb and hb.get("property") in ("C03", None):
